@@ -213,6 +213,57 @@ def r3_lint(run, F):
            "each branch is linted right after marking it as a naked branch; the mark is cleared afterwards: %s" % names)
 
 
+def r3b_lint_typestate(run, F):
+    """May-typestate of the linter's two Option flags (None = 0, Some = 1; Option::take leaves None): a statement is linted
+    with is_naked_branch = Some only as the branch of an `if`, and the flags never survive into the next statement,
+    block, function or declaration (a stale Some would blame an unrelated `if` for a later `{ loop; }`: spurious L1800)."""
+    LF = ("is_naked_branch", "is_first_statement_of_branch")
+    FM = flagstate.FlagModule(F, "src/alpha/linter.rs", LF, "linter::Linter")
+    L = "alpha::linter::Lintable>::lint"
+    ST_, BL_, FB_, DE_ = ("<alpha::common::%s as %s" % (x, L) for x in ("Statement", "Block", "FunctionBody", "Declaration"))
+    run.require(all(x in FM.fns for x in (ST_, BL_, FB_, DE_)), "linter impls not found")
+    # the Linter lives for the whole module: entry states of a declaration = initial state closed under the declaration's own exit
+    entry = {(0, 0)}
+    for _ in range(8):
+        new = entry | FM.apply_summary(FM.summary[DE_], entry)
+        if new == entry:
+            break
+        entry = new
+    run.ob("R3-LINT-TYPESTATE", "declaration leaves both flags None", entry == {(0, 0)}, F.where(FM.fns[DE_]),
+           "states in which the next declaration may be linted: %s" % sorted(entry), sample={"states": sorted(entry)})
+    entries, records = FM.reachable_calls({DE_: entry})
+    n = 0
+    for fn, recs in records.items():
+        b = FM.fns[fn]
+        base = fn.split("::{closure")[0]
+        for u, t, st in recs:
+            c = mirq.call_target(t)
+            if c != ST_:
+                continue
+            n += 1
+            if base == ST_:
+                ok = bool(st) and all(s[0] == 1 for s in st)
+                run.ob("R3-LINT-TYPESTATE", "if branch @%s" % ("else" if len([1 for x in recs if x[2] and mirq.call_target(x[1]) == ST_ and x[1]["l"] < t["l"]]) else "then"), ok, F.where(b, t),
+                       "a branch of an `if` is linted with is_naked_branch = Some; states %s" % sorted(st))
+            elif base == BL_:
+                ok = bool(st) and all(s[0] == 0 for s in st)
+                run.ob("R3-LINT-TYPESTATE", "block statement (line order %d)" % len([1 for x in recs if mirq.call_target(x[1]) == ST_ and x[1]["l"] < t["l"]]), ok, F.where(b, t),
+                       "a statement inside a block is not the branch of an `if`: is_naked_branch must be None when it is linted; states %s" % sorted(st))
+            elif base == FB_:
+                ok = bool(st) and all(s == (0, 0) for s in st)
+                run.ob("R3-LINT-TYPESTATE", "function body statement", ok, F.where(b, t),
+                       "a statement directly in a function body is linted with both flags None (otherwise a bare `{ loop; }` after an "
+                       "else-less `if c goto l;` raises L1800); states %s" % sorted(st))
+    run.require(n >= 5, "linter: recursive lint call sites not found (%d)" % n)
+    # only the first statement of a block may see is_first_statement_of_branch = Some
+    later = [(u, t, st) for u, t, st in records.get(BL_, []) if mirq.call_target(t) == ST_]
+    if len(later) >= 2:
+        later.sort(key=lambda x: x[1]["l"])
+        u, t, st = later[-1]
+        run.ob("R3-LINT-TYPESTATE", "non-first statements", bool(st) and all(s == (0, 0) for s in st), F.where(FM.fns[BL_], t),
+               "statements after the first are linted with both flags None; states %s" % sorted(st))
+
+
 def r4_generator(run, F):
     b = F.body("<alpha::resolved::Block as alpha::generator::Generatable>::generate")
     ifs = [n for n in walk(b["hir"]) if n.get("k") == "If" and "else" in n]
@@ -260,5 +311,6 @@ def check(run):
     r1_emission(run, F)
     r2_flags(run, F)
     r3_lint(run, F)
+    r3b_lint_typestate(run, F)
     r4_generator(run, F)
     r5_visit(run, F)
